@@ -19,7 +19,7 @@ from vmon.util import derive_rng
 
 LEVEL = "exploration"
 MANIFEST = {
-    "text": "Cross product of 14 source kinds (from_pandas sorted/unsorted/chunksize, from_array, from_map plain and projectable, from_delayed, persisted graph, legacy round trip, csv, parquet with both readers, timeseries) x 16 operation chains the selection is pushed through (elementwise, filters, broadcast scalar/series operands, single-partition and broadcast joins, shuffles, set_index/sort, cumulative, map_partitions) x partition index sets (single, slice, reordered, repeated, all, last) x head/tail (n, npartitions) on the real code, before and after optimize(); every selected partition is compared exactly with the corresponding partition of the fully computed collection, and a selection that raises where the full computation succeeds is a violation.",
+    "text": "Cross product of 14 source kinds (from_pandas sorted/unsorted/chunksize, from_array, from_map plain and projectable, from_delayed, persisted graph, legacy round trip, csv, parquet with both readers, timeseries) x 16 operation chains the selection is pushed through (elementwise, filters, broadcast scalar/series operands, single-partition and broadcast joins, shuffles, set_index/sort, cumulative, map_partitions) x partition index sets (single, slice, reordered, repeated, all, last) x head/tail (n, npartitions) on the real code, before and after optimize(); every selected partition is compared exactly with the corresponding partition of the fully computed collection, and a selection that raises where the full computation succeeds is a violation. Sources include a 12-partition frame (combine levels), chains include na_position='first' sorts and map_partitions(partition_info), selections numpy integers; len / Lengths / size answered from metadata are checked for every selection, a Series of it and a second same-size selection.",
     "note": "Optimized x.partitions[P] is judged per partition only when the optimized plan holds no IO-fusion node (FusedIO/FusedParquetIO merge files by design); otherwise by ordered concatenation. When the selected partitions hold fewer than n rows only the prefix property of head/tail is required. to_delayed() is judged against x.optimize().",
     "technique": "runtime monitoring: differential execution selection-vs-full, partition by partition, with M-rule recording the push-down rules that fired",
     "design_ref": "DESIGN.md section 4, C11",
